@@ -416,3 +416,70 @@ class SegmentPointSegmentRoundTrip(Contract):
         return n, bad[:5]
 
     ensures = [prop("same-segments-come-out", lambda a, old, r: r[0] == 4160 and not r[1])]
+
+
+@contract
+class ReversePensAgreeAndInvolute(Contract):
+    """ReverseContourPen (segments) and ReverseContourPointPen (points), for EVERY contour of one
+    to three segments over {line, cubic, quadratic with one or two control points}, closed or open,
+    closing point on or off the start, with and without the implied closing line: both pens
+    draw the same reversed contour, and reversing twice draws the original one (same start,
+    same segments, same points; a closing straight segment may be implied, a single point is
+    an anchor)."""
+    module = "fontTools.pens.reverseContourPen"
+    qualname = "ReverseContourPen.filterContour"
+    props = ("C14",)
+    shadow_mode = "real"
+    level = "PF"
+    assumptions = ("token-valued: 672 contours; reversedContour itself is under contract for symbolic points (ReversedContour)",)
+
+    def args(self, S, variant):
+        return {}
+
+    def call(self, f, a):
+        import itertools
+        from fontTools.pens.pointPen import SegmentToPointPen, PointToSegmentPen, ReverseContourPointPen
+        from fontTools.pens.reverseContourPen import ReverseContourPen
+        from fontTools.pens.recordingPen import RecordingPen
+        norm = SegmentPointSegmentRoundTrip._norm
+        SEGS = {"line": 0, "curve2": 2, "qcurve1": 1, "qcurve2": 2}
+        P = [(0, 0), (100, 0), (150, 80), (100, 160), (0, 200), (-60, 120), (-80, 40), (30, -50), (90, -20), (140, 30)]
+        real = ReverseContourPen.filterContour
+        calls = [0]
+
+        def counted(self_, contour):
+            calls[0] += 1
+            return f(self_, contour)
+        ReverseContourPen.filterContour = counted
+        bad, n, changed = [], 0, 0
+        try:
+            for L in range(1, 4):
+                for segs in itertools.product(SEGS, repeat=L):
+                    for closing, dup, implied in itertools.product(("closePath", "endPath"), (False, True), (False, True)):
+                        ops, k = [("moveTo", (P[0],))], 1
+                        for s in segs:
+                            cnt = SEGS[s]
+                            pts = tuple(P[(k + i) % len(P)] for i in range(cnt + 1))
+                            k += cnt + 1
+                            ops.append(("lineTo" if s == "line" else "curveTo" if s.startswith("curve") else "qCurveTo", pts))
+                        if dup:
+                            name, pts = ops[-1]
+                            ops[-1] = (name, pts[:-1] + (P[0],))
+                        ops.append((closing, ()))
+                        r1, r2, r3 = RecordingPen(), RecordingPen(), RecordingPen()
+                        pens = (ReverseContourPen(r1, outputImpliedClosingLine=implied),
+                                SegmentToPointPen(ReverseContourPointPen(PointToSegmentPen(r2, outputImpliedClosingLine=implied)), guessSmooth=False),
+                                ReverseContourPen(ReverseContourPen(r3, outputImpliedClosingLine=implied), outputImpliedClosingLine=implied))
+                        for pen in pens:
+                            for name, args in ops:
+                                getattr(pen, name)(*args)
+                        n += 1
+                        once, once_pt, twice = norm(r1.value), norm(r2.value), norm(r3.value)
+                        changed += once != norm(ops)
+                        if once != once_pt or twice != norm(ops):
+                            bad.append((segs, closing, dup, implied, r1.value, r2.value, r3.value))
+        finally:
+            ReverseContourPen.filterContour = real
+        return n, bad[:5], calls[0], changed
+
+    ensures = [prop("both-pens-agree-and-twice-is-identity", lambda a, old, r: r[0] == 672 and not r[1] and r[2] == 3 * 672 and r[3] > 600)]
